@@ -325,6 +325,15 @@ CLAIMED["C03"]["text"] += (
 )
 
 
+# round 5 (adpcmenc): IMA / MS ADPCM encoders and write paths are modelled bit for bit
+CLAIMED["C07"]["text"] += (
+    " Round 5: the IMA ADPCM (WAV / W64 and AIFF ima4 layouts) and MS ADPCM ENCODERS and write paths are modelled bit for bit (lean/SfModel/AdpcmEnc.lean, AdpcmFile.lean) and instantiate the"
+    " generic block writer with the real encoders: write-partition independence, closed length, frames at re-open, the decoded stream of a library-written file (lean/SfProps/C07Adpcm.lean);"
+    " vlib/adpcmenc.py compares data region, header frame field, return values and every decoded sample of library-written WAV / W64 / AIFF files with the model.")
+CLAIMED["C05"]["text"] += " Round 5: IMA / MS ADPCM write contract (counts, frames after re-open, refused sf_seek on a writer leaves no trace) by vlib/adpcmenc.py against lean/SfModel/AdpcmFile.lean; encoder range invariants in lean/SfProps/C07Adpcm.lean."
+CLAIMED["C04"]["text"] += " Round 5: geometry of the ADPCM block files (block-size rule at every sample-rate threshold incl. the int-wrapping products, N <= F < N + B) proved on the write-side model (adpcm_geometry, adpcm_closed_length, adpcm_frames_at_reopen) and checked by vlib/adpcmenc.py."
+CLAIMED["C02"]["text"] += " Round 5: the int -> short and normalised double -> short conversions in front of the IMA / MS ADPCM encoders are checked on library-written files (vlib/adpcmenc.py, predicate 'narrow'; theorem adpcm_int_narrowing)."
+
 def main():
     checks = []
     for p in PROPS:
